@@ -7,6 +7,7 @@ import (
 	"encoding/json"
 	"errors"
 	"fmt"
+	"runtime"
 	"sort"
 	"strconv"
 	"strings"
@@ -45,6 +46,7 @@ type cqScenario struct {
 	Prods [][][]int `json:"prods"`
 	Wic   cqWait    `json:"wic"`
 	Wsc   cqWatch   `json:"wsc"`
+	Burst bool      `json:"burst,omitempty"` // M2: producers and the WaitIdle caller run freely in parallel
 }
 
 var cqE1 = errors.New("E1")
@@ -124,6 +126,18 @@ func genConc(x *sched.Exec) cqScenario {
 	if r.Intn(3) == 0 {
 		sc.Wsc.Script = append(sc.Wsc.Script, "err")
 	}
+	if strings.Contains(Opt, "burst") {
+		// free-running burst: three producers with many one-job batches (lock contention), one plain WaitIdle
+		sc.Burst = true
+		sc.Init = []int{}
+		sc.Prods = [][][]int{{}, {}, {}}
+		for j := 1; j <= 9+r.Intn(6); j++ {
+			p := r.Intn(3)
+			sc.Prods[p] = append(sc.Prods[p], []int{j})
+		}
+		sc.Wic = cqWait{On: true, ErrCh: "none"}
+		sc.Wsc = cqWatch{On: false, Script: []string{}}
+	}
 	return sc
 }
 
@@ -138,6 +152,14 @@ func (d *cqDriver) job(j int) func() {
 		d.mu.Lock()
 		d.actorJob[self.Name] = j
 		d.mu.Unlock()
+		if d.sc.Burst {
+			x.Log(trace.E{"ev": "enter", "job": j})
+			for i := 0; i < j%4; i++ {
+				runtime.Gosched()
+			}
+			x.Log(trace.E{"ev": "leave", "job": j})
+			return
+		}
 		x.ParkUser("entry:"+strconv.Itoa(j), nil)
 		x.Log(trace.E{"ev": "enter", "job": j})
 		x.ParkUser("body:"+strconv.Itoa(j), nil)
@@ -335,7 +357,24 @@ func (d *cqDriver) Run(x *sched.Exec, raw json.RawMessage) json.RawMessage {
 		x.Log(trace.E{"ev": "quiet", "ready": rd})
 		d.lastQ = fmt.Sprint(rd, x.T.Seq())
 	}
-	x.Loop(moves, observe, 150)
+	if d.sc.Burst {
+		// M2: no parking at all; every client runs its whole program at once, in parallel
+		x.Policy = func(*sched.Actor, string, string, any) bool { return false }
+		for _, c := range x.Clients {
+			prog := c.Prog
+			c.Prog = nil
+			x.Issue(c, func() {
+				for _, op := range prog {
+					op.Do()
+					runtime.Gosched()
+				}
+			})
+		}
+		x.Labels = append(x.Labels, "burst")
+		synctest.Wait()
+	} else {
+		x.Loop(moves, observe, 150)
+	}
 
 	// teardown: everything runs freely from here on; every job finishes as soon as it is invoked
 	for _, c := range x.Clients {
